@@ -5,14 +5,13 @@ Require Import TT.Model.Str TT.Model.Pipeline TT.Model.C03Discover TT.Spec.C03Sp
 Import ListNotations.
 
 Definition c03_layout_ok (l : layout) : bool := layout_ok l.
-Definition c03_kf_root (root : str) : bool := kf_root root.
-Definition c03_kf_notutf8 (root : str) (l : layout) : bool := kf_notutf8 root l.
-(* library level: the CommandInfo list, None when the analysis returns Err *)
-Definition c03_analyze (root : str) (l : layout) : option (list (str * str * str * bool)) :=
-  match analyze root l with Done cs => Some (map (cmd_obs root) cs) | Failed => None end.
+(* library level: the CommandInfo list (inside the model the analysis has no Err outcome
+   any more: unreadable and unparsable files are skipped) *)
+Definition c03_analyze (root : str) (l : layout) : list (str * str * str * bool) :=
+  map (cmd_obs root) (analyze root l).
 (* commands.ts level: (invoke name, canonical Promise type) per wrapper *)
-Definition c03_wrappers (root : str) (l : layout) : option (list (str * str)) :=
-  match analyze root l with Done cs => Some (canon_pairs (map wobs (emit cs))) | Failed => None end.
+Definition c03_wrappers (root : str) (l : layout) : list (str * str) :=
+  canon_pairs (map wobs (emit (analyze root l))).
 Definition c03_spec (l : layout) : list (str * str) := canon_pairs (map spec_obs (annotated_spec l)).
 Definition c03_spec_files (l : layout) : list (list str) := map fst (annotated_spec l).
 Definition c03_read (ts : str) : option (list wrapper_obs) := read_wrappers ts.
@@ -20,5 +19,5 @@ Definition c03_oracle (expected : list (str * str)) (obs : option (list wrapper_
 Definition c03_perm (a b : list (str * str)) : bool := perm_b a b.
 
 Extraction Language OCaml.
-Extraction "tt_c03.ml" c03_layout_ok c03_kf_root c03_kf_notutf8 c03_analyze c03_wrappers c03_spec c03_spec_files
+Extraction "tt_c03.ml" c03_layout_ok c03_analyze c03_wrappers c03_spec c03_spec_files
   c03_read c03_oracle c03_perm.
